@@ -277,6 +277,9 @@ impl Property for C14 {
     fn tape_len(&self, _t: Tier) -> usize {
         300
     }
+    fn fuzz_runs(&self, _tier: Tier) -> u64 {
+        40_000
+    }
     fn random_cases(&self, tier: Tier) -> u64 {
         tier.pick(30_000, 500_000)
     }
